@@ -160,11 +160,11 @@ def run_enum(spec):
 
 def rand_item(r, kind, j):
   if kind == 'int':
-    return r.randrange(0, 6)
+    return r.randrange(-3, 4)             # zero and negative values are values like any other
   if kind == 'float':
-    return r.choice([0.5, 1.0, 1.5, float(r.randrange(0, 4)), r.random()])
+    return r.choice([0.5, 1.0, -1.5, float(r.randrange(-2, 3)), r.random(), 0.0, -0.0, -0.25])
   if kind == 'tuple':
-    return (r.randrange(0, 3), r.randrange(0, 3))
+    return r.choice([(), (r.randrange(-1, 2),), (r.randrange(-1, 2), r.randrange(0, 3))])
   return Lt(r.randrange(0, 5), j)
 
 
